@@ -153,6 +153,20 @@ fn options() -> Vec<Opt> {
 type Placement = (Option<u8>, Option<u8>);
 
 fn build(opts: &[(usize, Placement)], table: &[Opt], ctx: &[String]) -> Result<String, String> {
+    build_spelt(opts, table, ctx, false)
+}
+
+/// The shortcut flag that spells `--<option> <value>` on the command line, if there is one.
+fn shortcut_flag(option: &str, value: &str) -> Option<String> {
+    match (option, value) {
+        ("protocol", "icmp" | "udp" | "tcp") | ("addr-family", "ipv4" | "ipv6") => Some(format!("--{value}")),
+        _ => None,
+    }
+}
+
+/// `shortcuts`: command-line values are spelt with their shortcut flag (`--udp`, `--ipv6`) where
+/// one exists - a command-line value all the same.
+fn build_spelt(opts: &[(usize, Placement)], table: &[Opt], ctx: &[String], shortcuts: bool) -> Result<String, String> {
     let mut argv: Vec<String> = vec!["trip".into(), "example.com".into()];
     argv.extend(ctx.iter().cloned());
     let mut sections: BTreeMap<&str, Vec<String>> = BTreeMap::new();
@@ -172,6 +186,8 @@ fn build(opts: &[(usize, Placement)], table: &[Opt], ctx: &[String]) -> Result<S
                 theme_cli.push(format!("{item}={val}"));
             } else if let Some(item) = o.cli.strip_prefix("bind:") {
                 bind_cli.push(format!("{item}={val}"));
+            } else if let (true, Some(flag)) = (shortcuts, shortcut_flag(&o.cli, val)) {
+                argv.push(flag);
             } else {
                 argv.push(format!("--{}", o.cli));
                 argv.push(val.clone());
@@ -314,9 +330,14 @@ fn part_a(tier: Tier, findings: &Mutex<Findings>) -> serde_json::Value {
                 continue;
             }
             for f in &dom {
-                for c in &dom {
+                for (c, shortcuts) in dom.iter().flat_map(|c| [(c, false), (c, true)]) {
+                    // the command-line value spelt `--protocol udp` and, where the CLI has one, by
+                    // its shortcut flag `--udp`
+                    if shortcuts && !c.is_some_and(|k| shortcut_flag(&o.cli, &o.value(k).0).is_some()) {
+                        continue;
+                    }
                     let opts = vec![(i, (*f, *c))];
-                    let got = build(&opts, &table, ctx);
+                    let got = build_spelt(&opts, &table, ctx, shortcuts);
                     // not expressible (clap refuses the value) or the file is not a well-formed
                     // configuration file at all (a literal outside the field's type makes the TOML
                     // deserialiser reject the whole file, whatever the command line says)
@@ -345,8 +366,8 @@ fn part_a(tier: Tier, findings: &Mutex<Findings>) -> serde_json::Value {
                         let key = format!("precedence:{}", o.cli);
                         findings.lock().unwrap().entry(key.clone()).or_insert_with(|| Finding {
                             key,
-                            detail: format!("[context {cname}; {} file={} cli={}] {detail}", o.cli, show(f, false), show(c, true)),
-                            replay: json!({"check":"C16","part":"a-sweep","context":cname,"option":o.cli,"file":show(f, false),"cli":show(c, true)}),
+                            detail: format!("[context {cname}; {} file={} cli={}{}] {detail}", o.cli, show(f, false), show(c, true), if shortcuts { " (spelt with its shortcut flag)" } else { "" }),
+                            replay: json!({"check":"C16","part":"a-sweep","context":cname,"option":o.cli,"file":show(f, false),"cli":show(c, true),"shortcut_flag":shortcuts}),
                             weight: (0, 0),
                             count: 1,
                         });
@@ -699,7 +720,7 @@ pub fn run(args: &CheckArgs) -> i32 {
     rep.set("distinct_nontrivial", json!(a["accepted_and_equal"].as_u64().unwrap_or(0) + b["accepted_runs"].as_u64().unwrap_or(0)));
     rep.set("precedence", a);
     rep.set("accepted_implies_runnable", b);
-    rep.set("rule", json!("(a) 116 layered options (39 scalars, 5 flags, 34 theme colours, 38 key bindings), two valid non-default values each: EVERY pair of options x EVERY pair of placements {absent, file, CLI, both (file v1/CLI v2 and swapped)} (flags: file {absent,true,false} x CLI {absent,present}) in two contexts and, in the richer context, three backgrounds for the remaining options (all absent / all in the file / all on the CLI), through the real clap parser + TOML deserialiser + build_config; oracle: the effective TrippyConfig (Debug of every field) equals the one obtained by giving each option's effective value (CLI, else file, else default) on the command line only - or both are rejected; every option is first shown to have an effect; + single-option sweep: every (file value, CLI value) pair over each scalar option's value domain (all enumeration members; numeric options {{0,1,7,28,64,254,255,256,1024,1025,33434,64511,64512,65535}}; durations {{0ms..1000s}}), incl. invalid values and sentinels such as 0 = auto (a file the TOML deserialiser rejects outright is not a configuration file and is skipped). (b) Builder grid protocol x strategy x port direction x family x first_ttl {0,1,2,254,255} x max_ttl {0,1,3,254,255} x max_inflight {0,1,24,255} x initial_sequence {0,33434,64511,64512,65535} x packet_size {0,27,28,47,48,84,1024,1025} x privilege (thorough: x extension mode x timing profile; quick pairs sizes with sequences): every configuration Builder::build accepts is run over the simulated network with and without responses; + long runs (254 probes per round, 12 rounds, initial sequence {0,33434,63000,64000,64511}) across every sequence wrap-around for every protocol x strategy x port direction x family x privilege x extension mode; + a (bindable) source address of the other address family than the target for every protocol x strategy x port direction x family x privilege; a panic is a violation, an Err value is not. distinct_nontrivial = accepted comparisons + accepted runs"));
+    rep.set("rule", json!("(a) 116 layered options (39 scalars, 5 flags, 34 theme colours, 38 key bindings), two valid non-default values each: EVERY pair of options x EVERY pair of placements {absent, file, CLI, both (file v1/CLI v2 and swapped)} (flags: file {absent,true,false} x CLI {absent,present}) in two contexts and, in the richer context, three backgrounds for the remaining options (all absent / all in the file / all on the CLI), through the real clap parser + TOML deserialiser + build_config; oracle: the effective TrippyConfig (Debug of every field) equals the one obtained by giving each option's effective value (CLI, else file, else default) on the command line only - or both are rejected; every option is first shown to have an effect; + single-option sweep: every (file value, CLI value) pair over each scalar option's value domain (the CLI value also spelt by its shortcut flag --icmp/--udp/--tcp/--ipv4/--ipv6 where one exists) (all enumeration members; numeric options {{0,1,7,28,64,254,255,256,1024,1025,33434,64511,64512,65535}}; durations {{0ms..1000s}}), incl. invalid values and sentinels such as 0 = auto (a file the TOML deserialiser rejects outright is not a configuration file and is skipped). (b) Builder grid protocol x strategy x port direction x family x first_ttl {0,1,2,254,255} x max_ttl {0,1,3,254,255} x max_inflight {0,1,24,255} x initial_sequence {0,33434,64511,64512,65535} x packet_size {0,27,28,47,48,84,1024,1025} x privilege (thorough: x extension mode x timing profile; quick pairs sizes with sequences): every configuration Builder::build accepts is run over the simulated network with and without responses; + long runs (254 probes per round, 12 rounds, initial sequence {0,33434,63000,64000,64511}) across every sequence wrap-around for every protocol x strategy x port direction x family x privilege x extension mode; + a (bindable) source address of the other address family than the target for every protocol x strategy x port direction x family x privilege; a panic is a violation, an Err value is not. distinct_nontrivial = accepted comparisons + accepted runs"));
     rep.sample(json!({"part": "a", "pair": ["first-ttl", "tui-geoip-mode"], "placements": "file=v1 & CLI=v2 ; file only", "background": "all others in the file"}));
     rep.sample(json!({"part": "b", "grid": "Udp/Dublin/FixedBoth/v6 first_ttl=1 max_ttl=3 max_inflight=24 seq=64511 size=48"}));
     rep.assumptions = vec!["the CLI->builder mapping of app.rs::start_tracer is not exercised (it spawns real sockets); the builder grid covers its image".into(), vcore::c01::ASSUME.into()];
